@@ -417,6 +417,60 @@ def replyFails {α : Type} : Reply α → Bool
   | .pass _ => false
   | _ => true
 
+/-! ### resumed part records are read in `filepath.Glob` order
+
+`Prepare` appends the records in the order `filepath.Glob(name + "-partial-*")` returns them, i.e.
+sorted by file name: lexicographic in the decimal suffix (`-partial-10` before `-partial-2`). -/
+
+/-- decimal digits, most significant first (`fuel > log10 n`) -/
+def decDigits : Nat → Nat → List Nat
+  | 0, _ => []
+  | f + 1, n => if n < 10 then [n] else decDigits f (n / 10) ++ [n % 10]
+
+def lexLe : List Nat → List Nat → Bool
+  | [], _ => true
+  | _ :: _, [] => false
+  | a :: as, b :: bs => a < b || (a == b && lexLe as bs)
+
+/-- `"-partial-" ++ i ≤ "-partial-" ++ j` as strings -/
+def globLe (i j : Nat) : Bool := lexLe (decDigits (i + 1) i) (decDigits (j + 1) j)
+
+def globInsert (x : Nat × Part) : List (Nat × Part) → List (Nat × Part)
+  | [] => [x]
+  | y :: ys => if globLe x.1 y.1 then x :: y :: ys else y :: globInsert x ys
+
+def globSort : List (Nat × Part) → List (Nat × Part)
+  | [] => []
+  | x :: xs => globInsert x (globSort xs)
+
+def indexFrom : Nat → List Part → List (Nat × Part)
+  | _, [] => []
+  | i, p :: ps => (i, p) :: indexFrom (i + 1) ps
+
+/-- `b.Parts` after `Prepare` found records: (N, record) in Glob order -/
+def globParts (ps : List Part) : List (Nat × Part) := globSort (indexFrom 0 ps)
+
+def lookupIdx (i : Nat) : List (Nat × Part) → Option Part
+  | [] => none
+  | (k, p) :: t => if k = i then some p else lookupIdx i t
+
+/-- the part loop over indexed parts (scripts and records are addressed by the part number N) -/
+def runPartsIdx (cfg : Cfg) (content : Bytes) (scripts : List (List ChunkReply)) :
+    List (Nat × Part) → Bytes → Nat → Bool × Bytes × List (Nat × Part) × Nat
+  | [], file, c => (true, file, [], c)
+  | (i, p) :: ps, file, c =>
+    if p.done = p.size then
+      let (ok, file', ps', c') := runPartsIdx cfg content scripts ps file c
+      (ok, file', (i, p) :: ps', c')
+    else
+      let (ok1, s', c1) := runPart content (scripts.getD i []) cfg.retries ⟨file, p, false⟩ c
+      let (ok2, file', ps', c2) := runPartsIdx cfg content scripts ps s'.file c1
+      (ok1 && ok2, file', (i, s'.p) :: ps', c2)
+
+/-- the records back in N order -/
+def byNumber (n : Nat) (res : List (Nat × Part)) : List Part :=
+  (List.range n).filterMap fun i => lookupIdx i res
+
 /-- the direct-URL loop of `run` (retries every error with backoff for 30 s) -/
 def directLoop (cfg : Cfg) (realm : Bytes) (dflt : Reply DirRep) :
     Nat → List (Reply DirRep) → Net → R Unit × Net
@@ -447,7 +501,7 @@ def downloadLayer (cfg : Cfg) (reg : Registry) (d : Digest) (ls : LScript) (pa :
       | (.ok total, _, net', n) => (.ok (plan cfg total, total), { net' with nh := net'.nh + n })
       | (.err e, _, net', n) => (.err e, { net' with nh := net'.nh + n })
       | (.panic p, _, net', n) => (.panic p, { net' with nh := net'.nh + n })
-    else (.ok (pa.parts, (pa.parts.map (·.size)).sum), net)
+    else (.ok (pa.parts, ((globParts pa.parts).map (·.2.size)).sum), net)
   match prep with
   | (.err e, net1) => (.err e, pa, net1)
   | (.panic p, net1) => (.panic p, pa, net1)
@@ -461,7 +515,11 @@ def downloadLayer (cfg : Cfg) (reg : Registry) (d : Digest) (ls : LScript) (pa :
     | (.err e, net2) => (.err e, ⟨some file, parts⟩, net2)
     | (.panic p, net2) => (.panic p, ⟨some file, parts⟩, net2)
     | (.ok (), net2) =>
-      let (ok, file', parts', c) := runParts cfg content parts ls.chunks file net2.nc
+      let (ok, file', parts', c) :=
+        if pa.parts.isEmpty then runParts cfg content parts ls.chunks file net2.nc
+        else
+          let (ok, file', res, c) := runPartsIdx cfg content ls.chunks (globParts parts) file net2.nc
+          (ok, file', byNumber parts.length res, c)
       let net3 := { net2 with nc := c }
       if ok then (.ok file', Partial.none, net3)
       else (.err .maxRetries, ⟨some file', parts'⟩, net3)
